@@ -187,7 +187,7 @@ class FakeApi:
 
     def channel(self, cid: int) -> Broadcast[Any]:
         if cid not in self.channels:
-            self.channels[cid] = Broadcast(name=f"fake-api-{cid}", resend_latest=True)
+            self.channels[cid] = Broadcast(name=f"fake-api-{cid}")
         return self.channels[cid]
 
     async def send(self, cid: int, data: Any) -> None:
